@@ -15,8 +15,8 @@ def run():
         builds = vlib.parallel(lambda v: (v[0], vlib.build_repo(sc.sub("build_" + v[0]), cflags=v[1], jobs=5)), VARIANTS, jobs=3)
         rng = random.Random(chk.seed)
         progs, pid = [], 0
-        n9 = 1500 if chk.thorough else 220
-        n3 = 600 if chk.thorough else 80
+        n9 = 5000 if chk.thorough else 220
+        n3 = 2000 if chk.thorough else 80
         for _ in range(n9):
             pid += 1
             progs.append((pid, cg.wrap_toplevel(cg.Gen09(rng).program())))
